@@ -376,8 +376,22 @@ def gen_interp_rt(rng):
             acc = ""
     if acc:
         norm.append((acc, None))
-    rendered = "".join(t.replace("$", "$$") + (G.render_path(p) if p is not None else "") for t, p in norm)
-    return {"kind": "interp", "text": rendered.encode("utf-8").hex(), "want": norm}
+    # an index may be SPELLED with leading zeros ([010] is the element 10, not 8: seeded change C02-m read it as octal)
+    spelled = []
+
+    def spell(p):
+        txt = G.render_path(p)
+        if rng.chance(1, 4):
+            spelled.append(1)
+            for k, v in p:
+                if k == "idx" and v >= 0 and ("[%d]" % v) in txt:
+                    txt = txt.replace("[%d]" % v, "[%s%d]" % ("0" * (1 + rng.below(2)), v), 1)
+        return txt
+    rendered = "".join(t.replace("$", "$$") + (spell(p) if p is not None else "") for t, p in norm)
+    # (the round-trip claim is made for canonical renderings only - Corr/C02.v checks that the text IS the rendering of the
+    #  claimed parts; a spelled text is compared with the model's parse, which reads [010] as 10)
+    return {"kind": "interp", "text": rendered.encode("utf-8").hex(), "want": None if spelled and rendered != "".join(
+        t.replace("$", "$$") + (G.render_path(p) if p is not None else "") for t, p in norm) else norm}
 
 
 def context_chain_cases():
